@@ -180,3 +180,107 @@ Example C09_vi_nonvacuous :
   show (vi_session 23 100 file [106;34;97;121;36;107; 34;98;50;100;119; 34;98;50;100;119; 120;119; 120;119]%N) /\
   show (vi_session 23 100 file [106;34;97;121;36;107; 34;98;50;100;119; 46; 64;97; 64;64]%N) <> None.
 Proof. vm_compute. split; [reflexivity|discriminate]. Qed.
+
+(* ====================================================================================================== *)
+(* The queue as C TEXT.  tools/c2clite.py translates term_push, term_read and term_cmd of /repo's term.c  *)
+(* and the statics ibuf, ibuf_pos, ibuf_cnt, icmd, icmd_pos into terms of the checked C semantics         *)
+(* CLite.v (GenCFuncs.v); coq/TrTerm.v proves that running them moves the queue read off the memory       *)
+(* (TrTerm.queue_of: used = ibuf_pos, ibuf = the cells ibuf[ibuf_pos .. ibuf_cnt), icmd = the cells       *)
+(* icmd[0 .. icmd_pos)) exactly as the model term_push / term_read / term_cmd of InputQueue.v -- about     *)
+(* which C09_capacity, C09_queue_is_stream and the retyping theorems speak -- says.  A change of the C     *)
+(* functions changes the terms, hence the statements that have to be proved.                              *)
+(* ====================================================================================================== *)
+From NV Require CLite CLiteProps GenCFuncs TrTerm.
+
+(* term_push(s, n) in EVERY memory whose statics satisfy 0 <= ibuf_pos <= ibuf_cnt <= sizeof(ibuf) (TrTerm.term_at),
+   for every source of n >= 0 cells in another block: the call returns (so the memmove and the memcpy stayed inside
+   ibuf and inside s), the invariant holds again with ibuf_cnt + min(n, sizeof(ibuf) - ibuf_cnt), and the queue is the
+   model's: the pushed keys, clipped to the room left, stand in FRONT of the unread ones (after /repo d3797a0,
+   098bcee), the read position is not moved *)
+Theorem C09_tr_term_push : forall (m : CLite.mem) pos cnt ib ip ic bs os (sblk : CLite.block) n d fuel (tin : list CLite.val),
+  TrTerm.term_at m pos cnt ib ip ic -> nth_error m bs = Some sblk -> bs <> GenCFuncs.G_ibuf ->
+  (0 <= n <= 2147483647)%Z -> (0 <= os)%Z -> (os + n <= Z.of_nat (length sblk))%Z ->
+  let k := Z.min n (IBUFSZ - cnt) in
+  let s := firstn (Z.to_nat n) (skipn (Z.to_nat os) sblk) in
+  exists m' ib',
+    CLite.callf GenCFuncs.cprog fuel (S d) GenCFuncs.F_term_push [CLite.VPtr bs os; CLite.VInt n] m = CLite.Ok (CLite.VUndef, m') /\
+    TrTerm.term_at m' pos (cnt + k)%Z ib' ip ic /\
+    TrTerm.queue_of pos (cnt + k)%Z ib' ip ic tin = term_push (TrTerm.queue_of pos cnt ib ip ic tin) s /\
+    TrTerm.unread pos (cnt + k)%Z ib' = firstn (Z.to_nat k) s ++ TrTerm.unread pos cnt ib.
+Proof.
+  intros m pos cnt ib ip ic bs os sblk n d fuel tin H1 H2 H3 H4 H5 H6 k s.
+  destruct (TrTerm.term_push_refines m pos cnt ib ip ic bs os sblk n d fuel tin H1 H2 H3 H4 H5 H6)
+    as (m' & ib' & A & B & C & D & _). exists m', ib'. split; [exact A|]. split; [exact B|]. split; [exact C|exact D].
+Qed.
+Print Assumptions C09_tr_term_push.
+
+(* term_read() while a key is queued (the other path calls poll/read: outside the translated subset): the head of the
+   model's queue is returned as unsigned char, the queue and the record move as the model's term_read says *)
+Theorem C09_tr_term_read_queued : forall (m : CLite.mem) pos cnt ib ip ic z d fuel (tin : list CLite.val),
+  TrTerm.term_at m pos cnt ib ip ic -> (pos < cnt)%Z -> nth_error ib (Z.to_nat pos) = Some (CLite.VInt z) -> (-128 <= z <= 127)%Z ->
+  let ip' := if (ip <? ICMDSZ)%Z then (ip + 1)%Z else ip in
+  let ic' := if (ip <? ICMDSZ)%Z then CLiteProps.upd ic (Z.to_nat ip) (CLite.VInt z) else ic in
+  exists m',
+    CLite.callf GenCFuncs.cprog fuel (S d) GenCFuncs.F_term_read [] m = CLite.Ok (CLite.VInt (z mod 256), m') /\
+    TrTerm.term_at m' (pos + 1)%Z cnt ib ip' ic' /\
+    term_read (TrTerm.queue_of pos cnt ib ip ic tin) = Some (CLite.VInt z, TrTerm.queue_of (pos + 1)%Z cnt ib ip' ic' tin).
+Proof.
+  intros m pos cnt ib ip ic z d fuel tin H1 H2 H3 H4 ip' ic'.
+  destruct (TrTerm.term_read_refines m pos cnt ib ip ic z d fuel tin None H1 H2 H3 H4) as (m' & A & B & C & _).
+  exists m'. split; [exact A|]. split; [exact B|exact C].
+Qed.
+Print Assumptions C09_tr_term_read_queued.
+
+(* term_cmd(&n): *n = the length of the model's record, the array returned holds the record in its first *n cells,
+   the record restarts empty; the queue is untouched *)
+Theorem C09_tr_term_cmd : forall (m : CLite.mem) pos cnt ib ip ic bn on (nblk : CLite.block) d fuel (tin : list CLite.val),
+  TrTerm.term_at m pos cnt ib ip ic -> nth_error m bn = Some nblk ->
+  bn <> GenCFuncs.G_ibuf -> bn <> GenCFuncs.G_ibuf_pos -> bn <> GenCFuncs.G_ibuf_cnt -> bn <> GenCFuncs.G_icmd -> bn <> GenCFuncs.G_icmd_pos ->
+  (0 <= on < Z.of_nat (length nblk))%Z ->
+  exists m',
+    CLite.callf GenCFuncs.cprog fuel (S d) GenCFuncs.F_term_cmd [CLite.VPtr bn on] m = CLite.Ok (CLite.VPtr GenCFuncs.G_icmd 0%Z, m') /\
+    TrTerm.term_at m' pos cnt ib 0%Z ic /\ CLite.load m' bn on = CLite.Ok (CLite.VInt ip) /\
+    term_cmd (TrTerm.queue_of pos cnt ib ip ic tin) = (firstn (Z.to_nat ip) ic, TrTerm.queue_of pos cnt ib 0%Z ic tin).
+Proof.
+  intros m pos cnt ib ip ic bn on nblk d fuel tin H1 H2 N1 N2 N3 N4 N5 H3.
+  destruct (TrTerm.term_cmd_refines m pos cnt ib ip ic bn on nblk d fuel tin H1 H2 N1 N2 N3 N4 N5 H3) as (m' & A & B & C & D & _).
+  exists m'. split; [exact A|]. split; [exact B|]. split; [exact C|exact D].
+Qed.
+Print Assumptions C09_tr_term_cmd.
+
+(* non-vacuity: the program's zero-initialised statics satisfy the invariant, and the translated functions RUN on
+   that memory: push "abc", push "xy" -- the second push lands in front of the first: ibuf = x y a b c --, a read
+   returns 'x' and records it, a third push "abc" goes between the read key and the unread ones: x|a b c y a b c;
+   term_cmd hands out the record of length 1.  The last line: a push of 5000 cells into the empty queue is clipped
+   to sizeof(ibuf) *)
+Example C09_tr_term_push_runs :
+  let G := length GenCFuncs.cglobals in
+  let m0 := GenCFuncs.cglobals ++ [map CLite.VInt [97; 98; 99]%Z; map CLite.VInt [120; 121]%Z; [CLite.VUndef]; repeat (CLite.VInt 65%Z) 5000] in
+  let run f args m := CLite.callf GenCFuncs.cprog 10 1 f args m in
+  TrTerm.term_at m0 0%Z 0%Z GenCFuncs.gb_ibuf 0%Z GenCFuncs.gb_icmd /\
+  match run GenCFuncs.F_term_push [CLite.VPtr G 0%Z; CLite.VInt 3%Z] m0 with
+  | CLite.Ok (_, m1) =>
+    match run GenCFuncs.F_term_push [CLite.VPtr (G + 1) 0%Z; CLite.VInt 2%Z] m1 with
+    | CLite.Ok (_, m2) =>
+      TrTerm.peek m2 GenCFuncs.G_ibuf 6 = map CLite.VInt [120; 121; 97; 98; 99; 0]%Z /\
+      TrTerm.peek1 m2 GenCFuncs.G_ibuf_pos = Some 0%Z /\ TrTerm.peek1 m2 GenCFuncs.G_ibuf_cnt = Some 5%Z /\
+      match run GenCFuncs.F_term_read [] m2 with
+      | CLite.Ok (c, m3) =>
+        c = CLite.VInt 120%Z /\ TrTerm.peek1 m3 GenCFuncs.G_ibuf_pos = Some 1%Z /\
+        match run GenCFuncs.F_term_push [CLite.VPtr G 0%Z; CLite.VInt 3%Z] m3 with
+        | CLite.Ok (_, m4) =>
+          TrTerm.peek m4 GenCFuncs.G_ibuf 9 = map CLite.VInt [120; 97; 98; 99; 121; 97; 98; 99; 0]%Z /\
+          TrTerm.peek1 m4 GenCFuncs.G_ibuf_pos = Some 1%Z /\ TrTerm.peek1 m4 GenCFuncs.G_ibuf_cnt = Some 8%Z /\
+          match run GenCFuncs.F_term_cmd [CLite.VPtr (G + 2) 0%Z] m4 with
+          | CLite.Ok (p, m5) =>
+            p = CLite.VPtr GenCFuncs.G_icmd 0%Z /\ TrTerm.peek m5 (G + 2) 1 = [CLite.VInt 1%Z] /\
+            TrTerm.peek m5 GenCFuncs.G_icmd 1 = [CLite.VInt 120%Z] /\ TrTerm.peek1 m5 GenCFuncs.G_icmd_pos = Some 0%Z
+          | _ => False end
+        | _ => False end
+      | _ => False end
+    | _ => False end
+  | _ => False end /\
+  match run GenCFuncs.F_term_push [CLite.VPtr (G + 3) 0%Z; CLite.VInt 5000%Z] m0 with
+  | CLite.Ok (_, m1) => TrTerm.peek1 m1 GenCFuncs.G_ibuf_cnt = Some IBUFSZ /\ TrTerm.peek m1 GenCFuncs.G_ibuf 5000 = repeat (CLite.VInt 65%Z) (Z.to_nat IBUFSZ)
+  | _ => False end.
+Proof. cbv zeta. split; [exact (TrTerm.term_at_start _)|]. vm_compute. repeat split; reflexivity. Qed.
